@@ -141,9 +141,32 @@ class Parser(object):
                     self._parser_check(self._is_type_sizer_compatible(bound.type_name),
                                        "Sizer of '{}' has to be of (unsigned) integer type".format(name),
                                        line, pos)
+                    self._parser_check(not bound.optional and not bound.is_array,
+                                       "Sizer of '{}' cannot be optional nor an array".format(name),
+                                       line, pos)
                 else:
                     self._parser_error("Sizer of '{}' has to be defined before the array".format(name),
                                        line, pos)
+
+        for member, line, pos in members:
+            if member.is_array:
+                self._parser_check(
+                    member.kind != model.Kind.UNLIMITED,
+                    "array field '{}' of unlimited type".format(member.name),
+                    line, pos
+                )
+            if member.size:
+                self._parser_check(
+                    member.kind == model.Kind.FIXED,
+                    "fixed or limited array field '{}' of dynamic type".format(member.name),
+                    line, pos
+                )
+            if member.optional:
+                self._parser_check(
+                    member.kind == model.Kind.FIXED,
+                    "optional field '{}' of dynamic type".format(member.name),
+                    line, pos
+                )
 
         for member, line, pos in members[:-1]:
             self._parser_check(
